@@ -1,5 +1,6 @@
 import BppModel.Prelude.Scalar
 import BppModel.Generated.Constants
+import BppModel.Generated.DiscretizeConstants
 import BppModel.Interval
 /-
 Model of `bpp::AbstractDiscreteDistribution`
@@ -51,7 +52,7 @@ structure Parent (α : Type) where
 variable {α : Type} [Scalar α]
 
 /-- `NumConstants::VERY_BIG()` = `1.7E+23` (NumConstants.h:48); as a double 0x44c1ffdbf6b2b2eb -/
-def VERY_BIG : α := Scalar.ofRat 169999999999999995805696 1
+def VERY_BIG : α := Gen.VERY_BIG   -- regenerated from the source by tools/gen_discretize_constants.py
 
 def sumL (l : List α) : α := l.foldl (· + ·) Scalar.zero
 
@@ -226,7 +227,7 @@ def rescale (vals : List α) (mean ec : α) : List α :=
 /-- value of a mean-valued class `[f, s]` (cpp:351-356, 360-364) -/
 def meanValue (par : Parent α) (ec : α) (fs : α × α) : α :=
   let v := (par.E fs.2 - par.E fs.1) / ec
-  if Scalar.ltb v fs.1 || Scalar.gtb v fs.2 then (fs.1 + fs.2) / two else v
+  if !(Scalar.geb v fs.1 && Scalar.leb v fs.2) then (fs.1 + fs.2) / two else v   -- repaired: also catches NaN
 
 def midValue (fs : α × α) : α := (fs.1 + fs.2) / two
 
@@ -255,7 +256,7 @@ def dblEpsilon : α := Scalar.ofRat 1 4503599627370496
 
 /-- the separation step (repair): the precision, but at least four spacings of the doubles
 around the value: `std::max(precision(), 4 * epsilon * std::abs(v))` -/
-def sepStep (prec v : α) : α := Scalar.max prec (Scalar.ofInt 4 * dblEpsilon * Scalar.abs v)
+def sepStep (prec v : α) : α := Scalar.max prec (Gen.sepFactor * dblEpsilon * Scalar.abs v)
 
 /-- the `while` loop of cpp:438-442: first `v + f*j*step` not equivalent to a key -/
 def searchFree (prec step hi v : α) (m : TMap α) : Nat → Int → Int → Option α
@@ -427,6 +428,13 @@ def separated (prec : α) : List α → Bool
 def resolved (par : Parent α) (s : DD α) : Bool :=
   let raw := (eqPropRaw par s).2
   listEqB (adjust s.dom s.prec raw) raw && separated s.prec raw
+
+/-- the medians of the non-degenerate branch are rescaled (condition of `rescale`) -/
+def rescaledB (par : Parent α) (s : DD α) : Bool :=
+  let minX := par.P s.dom.lo
+  let ec := (par.P s.dom.hi - minX) / nat s.n
+  let t := sumL (medians par s.n s.dom.lo s.dom.hi minX ec)
+  !(Scalar.eqb t Scalar.zero) && Scalar.gtb ((par.E s.dom.hi - par.E s.dom.lo) / t) Scalar.zero
 
 /-- the classes of the equal-interval scheme are wider than the comparator precision -/
 def eqIntResolved (s : DD α) : Bool :=
